@@ -11,8 +11,9 @@
 //!     full charge the same amount;
 //!   * naive metering oracle: the same program with `i64.const cost(op); call gas` in front of EVERY
 //!     instruction (costs from Rules::instruction_cost of the code, + call_per_local at function
-//!     entry) charges exactly what the block metering charges on every run that does not trap, and
-//!     at most that on trapping runs — "the cost depends only on the executed path";
+//!     entry) never charges more than the block metering, and charges exactly the same on every
+//!     non-trapping run of a program without a `continue` out of a nested block (for those the
+//!     instrumenter prepays the instructions after the nested construct: counted, not a failure);
 //!   * the gas-only output is parsed back into MiniWasm with `Charge c` for each
 //!     `i64.const c; call $gas`; Coq checks that erasing the charges gives back the original
 //!     program, that the model interpreter agrees with wasmi on the original (result / trap /
@@ -70,7 +71,7 @@ struct Gen<'a> {
     params: u32,
     free_locals: Vec<u32>, // locals usable by statements
     next_counter: u32,     // loop counters are allocated after the free locals
-    labels: Vec<bool>,     // innermost last; true = loop
+    labels: Vec<Option<u32>>, // innermost last; Some(counter local) = loop
     budget: i32,
 }
 impl<'a> Gen<'a> {
@@ -194,25 +195,24 @@ impl<'a> Gen<'a> {
             5 => out.push(I::Nop),
             6 | 7 => {
                 let mut b = Vec::new();
-                self.labels.push(false);
+                self.labels.push(None);
                 self.stmts(d + 1, &mut b);
                 self.labels.pop();
                 out.push(I::Block(b));
             }
             8 | 9 => {
-                // bounded loop: counter local, decremented at the end of the body
+                // bounded loop: the counter is decremented at the START of the body, the body may
+                // `continue` (br_if to the loop label, from any nesting depth) only while the counter
+                // is non-zero, and the back edge at the end is taken while the counter is non-zero
                 let c = self.next_counter;
                 self.next_counter += 1;
                 out.push(I::Const(self.rng.range(1, 4)));
                 out.push(I::LocalSet(c));
-                let mut b = Vec::new();
-                self.labels.push(true);
+                let mut b = vec![I::LocalGet(c), I::Const(1), I::Bin(1), I::LocalSet(c)];
+                self.labels.push(Some(c));
                 self.stmts(d + 1, &mut b);
                 self.labels.pop();
                 b.push(I::LocalGet(c));
-                b.push(I::Const(1));
-                b.push(I::Bin(1));
-                b.push(I::LocalTee(c));
                 b.push(I::BrIf(0));
                 out.push(I::Loop(b));
             }
@@ -220,7 +220,7 @@ impl<'a> Gen<'a> {
                 self.expr(1, out);
                 let mut t = Vec::new();
                 let mut e = Vec::new();
-                self.labels.push(false);
+                self.labels.push(None);
                 self.stmts(d + 1, &mut t);
                 if self.rng.bool() {
                     self.stmts(d + 1, &mut e);
@@ -228,9 +228,20 @@ impl<'a> Gen<'a> {
                 self.labels.pop();
                 out.push(I::If(t, e));
             }
+            12 if self.labels.iter().any(|l| l.is_some()) => {
+                // continue: conditional backward branch to an enclosing loop, guarded by its counter
+                let loops: Vec<(u32, u32)> = self.labels.iter().rev().enumerate().filter_map(|(i, l)| l.map(|c| (i as u32, c))).collect();
+                let (depth, c) = *self.rng.pick(&loops);
+                self.expr(1, out);
+                out.push(I::Const(0));
+                out.push(I::Bin(9)); // Ne
+                out.push(I::LocalGet(c));
+                out.push(I::Bin(2)); // Mul: non-zero iff the condition holds and the counter is non-zero
+                out.push(I::BrIf(depth));
+            }
             12 | 13 => {
                 // conditional branch to an enclosing non-loop label
-                let targets: Vec<u32> = self.labels.iter().rev().enumerate().filter(|(_, l)| !**l).map(|(i, _)| i as u32).collect();
+                let targets: Vec<u32> = self.labels.iter().rev().enumerate().filter(|(_, l)| l.is_none()).map(|(i, _)| i as u32).collect();
                 if targets.is_empty() {
                     out.push(I::Nop);
                 } else {
@@ -256,7 +267,7 @@ impl<'a> Gen<'a> {
                     out.push(I::Nop);
                     return;
                 }
-                let targets: Vec<u32> = self.labels.iter().rev().enumerate().filter(|(_, l)| !**l).map(|(i, _)| i as u32).collect();
+                let targets: Vec<u32> = self.labels.iter().rev().enumerate().filter(|(_, l)| l.is_none()).map(|(i, _)| i as u32).collect();
                 match self.rng.below(6) {
                     0 => out.push(I::Unreachable),
                     1 | 2 => {
@@ -276,6 +287,54 @@ impl<'a> Gen<'a> {
             }
         }
     }
+}
+
+/// no branch leaves a nested block / loop / if towards a LOOP label outside it
+fn nc_list(ctx: &[bool], is: &[I]) -> bool {
+    fn exits(i: &I) -> Vec<u32> {
+        fn preds(v: Vec<u32>) -> Vec<u32> {
+            v.into_iter().filter(|k| *k > 0).map(|k| k - 1).collect()
+        }
+        match i {
+            I::Br(n) | I::BrIf(n) => vec![*n],
+            I::Block(b) | I::Loop(b) => preds(b.iter().flat_map(exits).collect()),
+            I::If(t, e) => preds(t.iter().chain(e.iter()).flat_map(exits).collect()),
+            _ => vec![],
+        }
+    }
+    is.iter().all(|i| {
+        let own_ok = exits(i).iter().all(|k| !ctx.get(*k as usize).copied().unwrap_or(false));
+        let inner = |l: bool, b: &Vec<I>| {
+            let mut c = vec![l];
+            c.extend_from_slice(ctx);
+            nc_list(&c, b)
+        };
+        match i {
+            I::Block(b) => own_ok && inner(false, b),
+            I::Loop(b) => own_ok && inner(true, b),
+            I::If(t, e) => own_ok && inner(false, t) && inner(false, e),
+            _ => true,
+        }
+    })
+}
+
+/// fixed programs: `continue` from inside a nested block / if (the instructions after the nested
+/// construct are prepaid by the loop body's metered block and skipped by the continue)
+fn corpus() -> Vec<Vec<F>> {
+    let dec = |c: u32| vec![I::LocalGet(c), I::Const(1), I::Bin(1), I::LocalSet(c)];
+    let bump = vec![I::GlobalGet(0), I::Const(1), I::Bin(0), I::GlobalSet(0)];
+    let mut b1 = dec(1);
+    b1.push(I::Block(vec![I::LocalGet(1), I::BrIf(1), I::Nop]));
+    b1.extend(bump.clone());
+    let p1 = vec![F { params: 1, locals: 1, result: true, body: vec![I::Const(3), I::LocalSet(1), I::Loop(b1), I::GlobalGet(0)] }];
+    let mut b2 = dec(1);
+    b2.push(I::LocalGet(0));
+    b2.push(I::If(vec![I::LocalGet(1), I::BrIf(1), I::Nop], vec![I::Nop]));
+    b2.extend(bump.clone());
+    b2.push(I::LocalGet(1));
+    b2.push(I::BrIf(0));
+    let p2 = vec![F { params: 1, locals: 1, result: true, body: vec![I::Const(4), I::LocalSet(1), I::Loop(b2), I::GlobalGet(0)] }];
+    vec![p1, p2]
 }
 
 fn gen_prog(rng: &mut Rng) -> Vec<F> {
@@ -741,12 +800,16 @@ fn main() {
          non-trivial = the program has a loop or a branch and at least 3 metering calls were executed; distinct by program text + argument",
     );
     let mut cw = CaseWriter::new("RV.Corr.C46_run RV.Model.C46_MiniWasm", "check");
+    assert_eq!(corpus().len(), 2);
     let root = Rng::new(args.seed);
     let cfg = WasmValidatorConfigV1::new();
     let max_stack = cfg.max_stack_size();
     for i in 0..args.cases {
         let mut rng = root.fork(i as u64);
-        let p = gen_prog(&mut rng);
+        let fixed = corpus();
+        let p = if i < fixed.len() { fixed[i].clone() } else { gen_prog(&mut rng) };
+        let is_nc = p.iter().all(|f| nc_list(&[false], &f.body));
+        report.count(if is_nc { "programs_without_nested_continue" } else { "programs_with_nested_continue" });
         let plain = emit(&p, None);
         let input = json!({"wasm": hex(&plain)});
         // the code under test
@@ -796,12 +859,16 @@ fn main() {
             if r1.gas != r2.gas {
                 report.oracle_failure(i, "", &format!("stack limiter changed the gas charged: {} vs {}", r1.gas, r2.gas), input.clone());
             }
-            // cost = sum of the costs of the executed instructions
-            if r0.result.is_ok() && rn.gas != r1.gas {
-                report.oracle_failure(i, "", &format!("charged {} but the executed instructions cost {}", r1.gas, rn.gas), input.clone());
+            // cost vs the sum of the costs of the executed instructions (naive metering):
+            // never less; equal on non-trapping runs of programs without a nested continue
+            if rn.gas > r1.gas {
+                report.oracle_failure(i, "", &format!("charged {} is LESS than the executed instructions cost {}", r1.gas, rn.gas), input.clone());
             }
-            if r0.result.is_err() && rn.gas > r1.gas {
-                report.oracle_failure(i, "", &format!("trapping run charged {} less than the executed instructions cost {}", r1.gas, rn.gas), input.clone());
+            if r0.result.is_ok() && is_nc && rn.gas != r1.gas {
+                report.oracle_failure(i, "", &format!("charged {} but the executed instructions cost {} (no nested continue in the program)", r1.gas, rn.gas), input.clone());
+            }
+            if r0.result.is_ok() && rn.gas < r1.gas {
+                report.count("overcharged_runs_nested_continue");
             }
             if rn.result != r0.result {
                 report.oracle_failure(i, "", "naive metering variant disagrees (harness)", input.clone());
@@ -829,13 +896,14 @@ fn main() {
                 Err(_) => "ObsTrap".to_string(),
             };
             cw.push(format!(
-                "(mkCase {} {} {}%Z {} {} {}%Z)",
+                "(mkCase {} {} {}%Z {} {} {}%Z {}%Z)",
                 coq_prog(&p),
                 coq_prog(&back),
                 arg,
                 obs,
                 coq_list(r0.globals.iter().map(|g| format!("{}%Z", g))),
-                r1.gas
+                r1.gas,
+                rn.gas
             ));
         }
         if i < 2 {
@@ -847,6 +915,8 @@ fn main() {
     let n = args.cases as u64;
     report.floor("outcome_value", n / 4);
     report.floor("metering_calls_injected", n);
+    report.floor("overcharged_runs_nested_continue", 1);
+    report.floor("programs_without_nested_continue", n / 4);
     cw.write(&args.out, args.shards).unwrap();
     report.write(&args.out).unwrap();
 }
